@@ -1,9 +1,173 @@
-(* Props/C03.v — the property theorems for C03. *)
+(* Props/C03.v — the property theorems for C03 (write then read returns the same table; writing is
+   canonical and composable).  Only statements, `exact <lemma>` and Print Assumptions live here.
+   "as it is" = the model of the code in /repo (its, run_hist, parse_file); "repaired" = the one-line
+   switches named in Model/C03.v (its_fixed, run_hist_fixed). *)
 From Coq Require Import ZArith List Bool String.
-From BNP Require Import Base.Prims Model.C03 Proofs.C03.
+From BNP Require Import Base.Prims Model.C03 Corr.C03.
+From BNP Require Import Proofs.C03 Proofs.C03_int Proofs.C03_scatter Proofs.C03_fasta Proofs.C03_read Proofs.C03_main.
 Import ListNotations.
 Open Scope Z_scope.
 
-Theorem C03_serialise_app : forall f a b, serialise f (a ++ b) = serialise f a ++ serialise f b.
-Proof. exact serialise_app. Qed.
-Print Assumptions C03_serialise_app.
+(* ---- integers ---- *)
+(* the canonical numeral of every integer reads back as that integer *)
+Theorem C03_int_text_roundtrip : forall n : Z, parse_int (dec n) = Some n.
+Proof. exact parse_int_dec. Qed.
+Print Assumptions C03_int_text_roundtrip.
+
+(* ints_to_strings (digit matrix over a power array, '-' stored over position 0) prints the canonical
+   numeral — code as it is: for |n| < 10^15 - 2 *)
+Theorem C03_int_text_partial : forall n : Z, Z.abs n < 10 ^ 15 - 2 -> its_pinned n = dec n.
+Proof. exact its_pinned_dec_small. Qed.
+Print Assumptions C03_int_text_partial.
+
+(* ... and not beyond: float log10 gives one digit too many just below 10^15, and |-2^63| wraps *)
+Theorem C03_int_text_refuted : exists n : Z, - 2 ^ 63 <= n < 2 ^ 63 /\ its_pinned n <> dec n.
+Proof. exists (10 ^ 15 - 1). split; [vm_compute; split; [discriminate|reflexivity]|exact its_leading_zero]. Qed.
+Print Assumptions C03_int_text_refuted.
+Theorem C03_int_min_refuted : its_pinned (- 2 ^ 63) = [45; 50].
+Proof. exact (proj1 its_int64_min). Qed.
+Print Assumptions C03_int_min_refuted.
+
+(* repaired width (exact digit count, true |n|): every integer *)
+Theorem C03_int_text_fixed : forall n : Z, its_fixed n = dec n.
+Proof. exact its_fixed_dec. Qed.
+Print Assumptions C03_int_text_fixed.
+
+(* ---- T1: the strided scatter of dump_csv.join_columns is the tab/newline layout — every table of n >= 1
+   columns, any number of rows (0 included), any cell lengths (0 included) ---- *)
+Theorem C03_join_columns_canonical :
+  forall (n : nat) (rows : list (list (list Z))),
+    (1 <= n)%nat -> Forall (fun r => List.length r = n) rows ->
+    join_columns (columns n rows) (List.length rows) = List.concat (map (fun r => intercalate [9] r ++ [10]) rows).
+Proof. exact join_columns_rows. Qed.
+Print Assumptions C03_join_columns_canonical.
+
+(* FastQBuffer.join_fields: '@' name LF sequence LF '+' LF qualities LF for every record *)
+Theorem C03_fastq_layout :
+  forall rows : list (list (list Z)),
+    Forall (fun r => exists nm s q, r = [nm; s; [43]; q]) rows ->
+    List.concat (map (set_last 10) (map_stride (set_first 64) 0 4 (scatter [1%nat; O; O; O] (columns 4 rows) (List.length rows))))
+    = List.concat (map (fun r => [64] ++ nth 0 r [] ++ [10] ++ nth 1 r [] ++ [10; 43; 10] ++ nth 3 r [] ++ [10]) rows).
+Proof. exact fastq_join_rows. Qed.
+Print Assumptions C03_fastq_layout.
+
+(* ---- T2: MultiLineFastaBuffer.from_data, every width w >= 1 and every table of non-empty sequences:
+   header line, then the sequence in lines of w (last line (L-1) mod w + 1 characters) ---- *)
+Theorem C03_fasta_partial :
+  forall (w : Z) (es : list (list Z * list Z)),
+    1 <= w -> Forall (fun e => snd e <> []) es ->
+    fasta_from_data_pinned w es = Some (List.concat (map (fun e => [62] ++ fst e ++ [10] ++ wrap w (snd e)) es)).
+Proof. exact fasta_layout_all. Qed.
+Print Assumptions C03_fasta_partial.
+(* the repaired from_data (last-line length only for entries with lines): the same layout on the same
+   tables; empty sequences are then written as a bare header line (Example below) *)
+Theorem C03_fasta_fixed_nonempty :
+  forall (w : Z) (es : list (list Z * list Z)),
+    1 <= w -> Forall (fun e => snd e <> []) es ->
+    fasta_from_data_fixed w es = Some (List.concat (map (fun e => [62] ++ fst e ++ [10] ++ wrap w (snd e)) es)).
+Proof. exact fasta_fixed_layout_nonempty. Qed.
+Print Assumptions C03_fasta_fixed_nonempty.
+
+(* an empty sequence trips the shape assertion: (0-1)//w + 1 = 0 lines *)
+Theorem C03_fasta_refuted : exists (w : Z) (es : list (list Z * list Z)), 1 <= w /\ fasta_from_data_pinned w es = None.
+Proof. exists 80, [([97], [])]. split; [discriminate|exact fasta_empty_sequence_fails]. Qed.
+Print Assumptions C03_fasta_refuted.
+
+(* ---- one from_data call writes the canonical serialisation of its table (all formats) ---- *)
+Theorem C03_from_data_canonical_partial :
+  forall (f : fmt) (rows : list row), rows <> [] -> table_ok f rows -> from_data f rows = (0, serialise f rows).
+Proof. exact from_data_canonical. Qed.
+Print Assumptions C03_from_data_canonical_partial.
+
+(* ---- T4: pieces = whole, header exactly once.  Any history (sessions x calls x stream chunks, empty
+   pieces included) over tables in the domain above; code as it is: not a gzip target with a header that
+   is appended to, and the first session must hand over some table outside an all-empty stream ---- *)
+Theorem C03_write_pieces_partial :
+  forall (f : fmt) (header : list Z) (gz : bool) (h : list session),
+    hist_ok f h -> tail_appends h -> (header = [] \/ has_header f = true) ->
+    (gz = false \/ header = []) ->
+    match h with s :: _ => first_session_sees s | [] => True end ->
+    run_hist_pinned f header gz h = (0, spec_file f header h).
+Proof. exact write_history_partial. Qed.
+Print Assumptions C03_write_pieces_partial.
+
+Theorem C03_write_pieces_gzip_append_refuted :
+  exists h, hist_ok Vcf h /\ tail_appends h /\ run_hist_pinned Vcf [35; 10] true h <> (0, spec_file Vcf [35; 10] h).
+Proof. exact gzip_append_header_refuted. Qed.
+Print Assumptions C03_write_pieces_gzip_append_refuted.
+Theorem C03_write_pieces_empty_stream_refuted :
+  exists h, hist_ok Vcf h /\ tail_appends h /\ run_hist_pinned Vcf [35; 10] false h <> (0, spec_file Vcf [35; 10] h).
+Proof. exact stream_of_empty_chunks_refuted. Qed.
+Print Assumptions C03_write_pieces_empty_stream_refuted.
+
+(* repaired writer (append flag instead of file_obj.mode; empty stream chunks reach the header logic):
+   every history, plain or gzip *)
+Theorem C03_write_pieces_fixed_writer :
+  forall (f : fmt) (header : list Z) (gz : bool) (h : list session),
+    hist_ok f h -> tail_appends h -> (header = [] \/ has_header f = true) ->
+    run_hist_fixed f header gz h = (0, spec_file f header h).
+Proof. exact write_history_fixed_writer. Qed.
+Print Assumptions C03_write_pieces_fixed_writer.
+
+(* ---- T3: reading back.  The reference reader returns the table from its canonical serialisation:
+   delimited formats with text / int / int-list columns (no TAB or LF inside a text cell) and FASTQ ---- *)
+Theorem C03_parse_serialise_delim :
+  forall (schema : list Z) (rows : list row),
+    schema <> [] -> Forall (Forall2 cell_ok schema) rows -> id_cols_ok schema rows = true ->
+    parse_file Delim schema (serialise Delim rows) = Some rows.
+Proof. exact parse_file_serialise_delim. Qed.
+Print Assumptions C03_parse_serialise_delim.
+Theorem C03_parse_serialise_fastq :
+  forall (schema : list Z) (rows : list row), Forall fastq_row_ok rows ->
+    parse_raw Fastq schema (serialise Fastq rows) = Some rows.
+Proof. exact parse_serialise_fastq. Qed.
+Print Assumptions C03_parse_serialise_fastq.
+
+(* ---- model agrees => property holds (byte half of spec_ok) ---- *)
+Theorem C03_model_ok_written :
+  forall c : case,
+    hist_ok (k_fmt c) (k_hist c) -> tail_appends (k_hist c) ->
+    (k_header c = [] \/ has_header (k_fmt c) = true) -> (k_gz c = false \/ k_header c = []) ->
+    match k_hist c with s :: _ => first_session_sees s | [] => True end ->
+    model_ok c = true ->
+    k_err c = 0 /\ k_written c = spec_file (k_fmt c) (k_header c) (k_hist c).
+Proof. exact model_ok_written. Qed.
+Print Assumptions C03_model_ok_written.
+
+(* ---- non-vacuity: concrete non-trivial inputs meeting the hypotheses, evaluated by the executable model ---- *)
+Definition ex_r1 : row := [FS (unhex "63687231"); FI 0; FI 999999999999997; FL [1; 22; 333]].
+Definition ex_r2 : row := [FS (unhex "78"); FI (-5); FI 1000; FL []].
+Definition ex_hist : list session :=
+  [ {| s_append := false; s_calls := [ {| c_stream := false; c_chunks := [[ex_r1]] |};
+                                       {| c_stream := true; c_chunks := [[]; [ex_r2; ex_r1]; []] |} ] |};
+    {| s_append := true; s_calls := [ {| c_stream := false; c_chunks := [[ex_r2]] |} ] |} ].
+Example C03_nonvacuous_history :
+  run_hist Delim [] false ex_hist = (0, spec_file Delim [] ex_hist)
+  /\ parse_file Delim [6; 1; 1; 2] (spec_file Delim [] ex_hist) = Some (rows_of_hist ex_hist)
+  /\ List.length (rows_of_hist ex_hist) = 4%nat.
+Proof. vm_compute. repeat split; reflexivity. Qed.
+Example C03_fasta_fixed_empty_sequence :
+  fasta_from_data_fixed 3 [([97], []); ([98], [65; 67; 71; 84]); ([99], [])]
+  = Some [62; 97; 10; 62; 98; 10; 65; 67; 71; 10; 84; 10; 62; 99; 10].
+Proof. exact fasta_fixed_empty_sequence. Qed.
+Example C03_nonvacuous_fasta :
+  fasta_from_data 3 [([97], unhex "41434754414347"); ([98; 98], unhex "414347")]
+  = Some (unhex "3e610a4143470a5441430a470a3e62620a4143470a").
+Proof. vm_compute. reflexivity. Qed.
+Example C03_nonvacuous_table_ok : table_ok Delim [ex_r1; ex_r2] /\ hist_ok Delim ex_hist.
+Proof.
+  assert (S1 : Forall fld_small ex_r1) by (repeat constructor; unfold small_int; vm_compute; reflexivity).
+  assert (S2 : Forall fld_small ex_r2) by (repeat constructor; unfold small_int; vm_compute; reflexivity).
+  assert (T : forall rows, Forall (fun r => r = ex_r1 \/ r = ex_r2) rows -> table_ok Delim rows).
+  { intros rows H. split.
+    - exists 4%nat. split; [repeat constructor|]. eapply Forall_impl; [|exact H]. intros r [-> | ->]; reflexivity.
+    - eapply Forall_impl; [|exact H]. intros r [-> | ->]; assumption. }
+  split; [apply T; repeat (apply Forall_cons || apply Forall_nil); auto|].
+  unfold hist_ok, ex_hist.
+  repeat match goal with
+  | |- Forall _ [] => apply Forall_nil
+  | |- Forall _ (_ :: _) => apply Forall_cons
+  | |- table_ok Delim _ => apply T; repeat (apply Forall_cons || apply Forall_nil); auto
+  | _ => progress cbn [s_calls c_chunks]
+  end.
+Qed.
